@@ -209,18 +209,14 @@ func hexKeys(keys []*txgen.Key) []string {
 	return out
 }
 
+// kindsOf is the structural part of a violation key: the single key type of the set, or "mixed-kinds".
 func kindsOf(keys []*txgen.Key) string {
-	var have [txgen.NumKinds]bool
 	for _, k := range keys {
-		have[k.Kind] = true
-	}
-	var s []string
-	for i, h := range have {
-		if h {
-			s = append(s, txgen.Kind(i).String())
+		if k.Kind != keys[0].Kind {
+			return "mixed-kinds"
 		}
 	}
-	return strings.Join(s, "+")
+	return keys[0].Kind.String()
 }
 
 // samePub compares a parsed key with a generated one on the canonical serialization and
